@@ -61,6 +61,7 @@ def case_strategy(draw):
         "kind": "llk", "n_alleles": n_alleles, "max_allele": max_allele, "reads": reads, "counts": counts,
         "genotype": genotype, "indices": idx, "interval": interval, "haplotypes": haps, "alleles": alleles,
         "n_pad": n_pad, "hperm": hperm, "rperm": rperm, "py_func": draw(st.integers(0, 3)) == 0,
+        "zero_count": [draw(st.integers(0, 5)) == 0 for _ in reads] if draw(st.booleans()) else None,
     }
 
 
@@ -74,6 +75,15 @@ def check_case(ctx, case):
     n_alleles, max_allele = case["n_alleles"], case["max_allele"]
     n_base = len(n_alleles)
     reads, counts = case["reads"], case["counts"]
+    # a count of zero = the read was not observed; only placed on reads whose probability is strictly positive
+    zc = case.get("zero_count")
+    has_zero_count = False
+    if zc and any(zc):
+        counts = list(counts) if counts is not None else [1] * len(reads)
+        for r, flag in enumerate(zc):
+            if flag and not any(v == 0.0 for cell in reads[r] for v in cell if v is not None):
+                counts[r] = 0
+                has_zero_count = True
     genotype = case["genotype"]
     ploidy = len(genotype)
     R_arr = G.reads_array(reads, n_base, max_allele)
@@ -92,6 +102,8 @@ def check_case(ctx, case):
         classes.append("gap")
     if counts is not None:
         classes.append("weighted")
+    if has_zero_count:
+        classes.append("zero_count_read")
     if nonid:
         classes.append("nonidentity_rearrangement")
     if inside:
